@@ -164,12 +164,13 @@ def classify(t):
 
 
 class Site:
-  __slots__ = ('kind', 'func', 'node', 'term', 'cls', 'eps', 'text')
+  __slots__ = ('kind', 'func', 'node', 'term', 'cls', 'eps', 'text', 'num')
 
   def __init__(self, kind, func, node, term):
     self.kind, self.func, self.node, self.term = kind, func, node, term
     self.cls, self.eps = classify(term) if kind == 'div' else ('', None)
     self.text = pred.show(term)
+    self.num = None
 
   @property
   def key(self):
@@ -238,6 +239,7 @@ def sites(U, f, cache):
           out.append(Site(kind, f, n, N.term(n.args[0], env)))
     if isinstance(n, ast.BinOp) and isinstance(n.op, ast.Div):
       out.append(Site('div', f, n, N.term(n.right, env)))
+      out[-1].num = N.term(n.left, env)
     if isinstance(n, ast.BinOp) and isinstance(n.op, ast.Pow):
       ex = N.term(n.right, env)
       if not (pred.is_const(ex) and isinstance(ex[1], (int, float)) and float(ex[1]) == int(ex[1]) and ex[1] >= 0):
